@@ -52,6 +52,8 @@ VARIABLES
   nu,           \* next free uid
   der,          \* [1..MaxUid -> 0..MaxUid]  the uid a line was derived from by a "mod" edit (0 = typed afresh)
   dirty,        \* [File -> Author \cup {None}]  whose un-checkpointed edits a file holds
+  nop,          \* sequence of the no-op commands run so far (read-only git commands, repeated checkpoints); it only
+                \* serves to make behaviours that contain them distinct for TLC (they change nothing else)
   ops,          \* kinds of state-moving commands run since the last commit (decides which clauses judge it)
   wl,           \* [0..MaxCommit -> WL]      working log per base
   ini,          \* [0..MaxCommit -> [File -> LineMap]]   INITIAL per base
@@ -66,6 +68,8 @@ VARIABLES
   gblame,       \* [File -> Seq(<<commit, file, line>>)] what plain `git blame HEAD` says about each line of the
                 \* files whose work tree copy equals HEAD: originating commit, path there, line number there
   fmtok,        \* BOOLEAN: every blame output format agreed with git blame / with the JSON output (harness-compared)
+  uv, tuv,      \* what a user of plain git observes (digests of HEAD, refs outside the AI namespaces, index, status,
+                \* work tree, stash, operation state, and exit status + stdout of each command): primary and twin
   tnotes,       \* notes of the TWIN execution of the same behaviour (other mode / configuration / code path)
   tblame,       \* blame of the twin
   l,            \* trace position
@@ -74,8 +78,8 @@ VARIABLES
   taint,        \* trace mode: deviation names that fired with effect in the current run
   hist          \* gen mode: replay script (hidden by VIEW)
 
-gitvars == <<wt, idx, tree, par, ckind, nc, head, tip2, side, stash, truth, nu, der, dirty, ops>>
-aivars  == <<wl, ini, isnap, notes, snote, blame, tnotes, tblame, storage, leak, fmtok, gblame, stats>>
+gitvars == <<wt, idx, tree, par, ckind, nc, head, tip2, side, stash, truth, nu, der, dirty, ops, nop>>
+aivars  == <<wl, ini, isnap, notes, snote, blame, tnotes, tblame, storage, leak, fmtok, gblame, stats, uv, tuv>>
 vars    == <<gitvars, aivars, l, viol, drift, taint, hist>>
 view    == <<gitvars, wl, ini, isnap, notes, snote, blame, taint>>
 
@@ -445,6 +449,10 @@ C19_Stats ==
     /\ StatsOK(c, stats[c], {})
     /\ stats[c].ign.has => StatsOK(c, stats[c].ign, {stats[c].ign.file})
 
+\* C06: through the proxy a command sequence leaves exactly what plain git leaves (the twin is a second
+\* repository driven by plain git with the same environment and dates, so that object ids coincide)
+C06_Same == uv = tuv
+
 \* C08: conversation text reaches the shared notes only when the user opted in, and then with credentials masked
 C08_NoTranscript == storage # "notes" => ~leak.text
 C08_Masked       == ~leak.secret
@@ -461,7 +469,7 @@ Clean(p) == taint # {} \/ p
 
 PropertyNames == {"C01_Exact", "C02_Carried", "C01_OnlyAdded", "C03_Notes", "C03_Blame", "C05_WellFormed",
                   "Twin_Obs", "Twin_Exact", "Twin_Blame", "Twin_UpToCumulative", "Twin_Equiv",
-                  "C08_NoTranscript", "C08_Masked", "C09_Overlay", "C09_Formats", "C19_Stats"}
+                  "C08_NoTranscript", "C08_Masked", "C09_Overlay", "C09_Formats", "C19_Stats", "C06_Same"}
 Holds(p) == CASE p = "C01_Exact" -> C01_Exact
               [] p = "C02_Carried" -> C02_Carried
               [] p = "C01_OnlyAdded" -> C01_OnlyAdded
@@ -478,6 +486,7 @@ Holds(p) == CASE p = "C01_Exact" -> C01_Exact
               [] p = "C09_Overlay" -> C09_Overlay
               [] p = "C09_Formats" -> C09_Formats
               [] p = "C19_Stats" -> C19_Stats
+              [] p = "C06_Same" -> C06_Same
 
 -----------------------------------------------------------------------------
 (* Trace plumbing *)
@@ -518,7 +527,7 @@ AiAdopt(g, cwl, cini, cnotes, fired) ==
           /\ blame' = BlameOf(cnotes, g.tree, g.par, g.head, g.wt)
           /\ tnotes' = cnotes /\ tblame' = BlameOf(cnotes, g.tree, g.par, g.head, g.wt)
           /\ leak' = leak /\ storage' = storage /\ fmtok' = TRUE
-          /\ gblame' = GitBlameOf(g.tree, g.par, g.head, g.wt) /\ stats' = stats
+          /\ gblame' = GitBlameOf(g.tree, g.par, g.head, g.wt) /\ stats' = stats /\ uv' = uv /\ tuv' = tuv
           /\ drift' = drift /\ taint' = taint \cup fired
      ELSE LET ownl == [b \in 0..MaxCommit |->
                            [ent |-> [f \in File |-> [Ev.obs.wl[b + 1].ent[f] EXCEPT !.by = SetOf(@)]]]]
@@ -528,7 +537,7 @@ AiAdopt(g, cwl, cini, cnotes, fired) ==
              /\ blame' = Ev.obs.blame
              /\ tnotes' = [c \in 1..MaxCommit |-> ObsNote(Ev.twin.notes[c])] /\ tblame' = Ev.twin.blame
              /\ leak' = Ev.obs.leak /\ storage' = storage /\ fmtok' = Ev.obs.fmtok /\ gblame' = Ev.obs.gblame
-             /\ stats' = From1(Ev.obs.stats)
+             /\ stats' = From1(Ev.obs.stats) /\ uv' = Ev.obs.uv /\ tuv' = Ev.twin.uv
              /\ drift' = drift \cup (IF ownl # cwl THEN {<<l, "wl">>} ELSE {})
                                \cup (IF oini # cini THEN {<<l, "ini">>} ELSE {})
                                \cup (IF onot # cnotes THEN {<<l, "notes">>} ELSE {})
@@ -542,6 +551,11 @@ AiSame(g) == AiAdopt(g, wl, ini, notes, {})
 
 \* bookkeeping common to every step; in trace mode the property clauses are evaluated on the NEXT state
 Step2(rec, extra) ==
+  /\ nop' = IF Gen /\ rec.a \in {"ReadOnly", "CkptRepeat"}
+            THEN Append(nop, IF rec.a = "ReadOnly" THEN rec.cmd ELSE "repeat")
+            ELSE IF Gen /\ rec.a = "Ckpt" /\ rec.kind = "human" /\ rec.files = {}
+            THEN Append(nop, "human-ckpt")       \* a pre-edit / redundant human checkpoint (C14)
+            ELSE nop
   /\ hist' = IF Gen THEN Append(hist, rec) ELSE hist
   /\ l' = l + 1
   /\ viol' = IF Gen THEN viol
@@ -1158,13 +1172,13 @@ BaseTree == [f \in File |-> IF f = F0 THEN [i \in 1..BaseLines |-> <<i, 0>>] ELS
 
 InitCommon ==
   /\ stash = <<>> /\ snote = <<>>
-  /\ dirty = [f \in File |-> None] /\ ops = {}
+  /\ dirty = [f \in File |-> None] /\ ops = {} /\ nop = <<>>
   /\ wl = [b \in 0..MaxCommit |-> EmptyWL]
   /\ ini = [b \in 0..MaxCommit |-> NoMaps]
   /\ isnap = [b \in 0..MaxCommit |-> AllEmpty]
   /\ notes = [c \in 1..MaxCommit |-> IF InitKind = "base" /\ c = 1 THEN BaseNote ELSE NoNote]
   /\ blame = NoMaps /\ tblame = NoMaps /\ storage = "notes" /\ leak = [text |-> FALSE, secret |-> FALSE] /\ fmtok = TRUE
-  /\ gblame = NoMaps /\ stats = [c \in 1..MaxCommit |-> NoStats]
+  /\ gblame = NoMaps /\ stats = [c \in 1..MaxCommit |-> NoStats] /\ uv = <<>> /\ tuv = <<>>
   /\ tnotes = [c \in 1..MaxCommit |-> IF InitKind = "base" /\ c = 1 THEN BaseNote ELSE NoNote]
   /\ l = 1 /\ viol = {} /\ drift = {} /\ taint = {} /\ hist = <<>>
 
@@ -1196,6 +1210,7 @@ Next ==
      \/ GenRewrite
      \/ "mv" \in Alphabet /\ \E f \in File, g \in File : Mv(f, g)
      \/ "readonly" \in Alphabet /\ \E c \in {"status", "log", "diff"} : ReadOnly(c)
+     \/ "readonly_more" \in Alphabet /\ \E c \in {"bad", "global", "plumbing", "alias"} : ReadOnly(c)
      \/ "ckpt_repeat" \in Alphabet /\ CkptRepeat
 
 Spec == Init /\ [][Next]_vars
@@ -1221,13 +1236,13 @@ TrReset ==
              /\ truth' = [u \in 1..MaxUid |-> None] /\ nu' = 1
   /\ par' = [c \in 1..MaxCommit |-> 0] /\ der' = [u \in 1..MaxUid |-> 0]
   /\ stash' = <<>> /\ snote' = <<>>
-  /\ dirty' = [f \in File |-> None] /\ ops' = {}
+  /\ dirty' = [f \in File |-> None] /\ ops' = {} /\ nop' = <<>>
   /\ wl' = [b \in 0..MaxCommit |-> EmptyWL]
   /\ ini' = [b \in 0..MaxCommit |-> NoMaps]
   /\ isnap' = [b \in 0..MaxCommit |-> AllEmpty]
   /\ notes' = [c \in 1..MaxCommit |-> IF Ev.init = "base" /\ c = 1 THEN BaseNote ELSE NoNote]
   /\ blame' = NoMaps /\ tblame' = NoMaps /\ storage' = Ev.storage /\ leak' = [text |-> FALSE, secret |-> FALSE] /\ fmtok' = TRUE
-  /\ gblame' = NoMaps /\ stats' = [c \in 1..MaxCommit |-> NoStats]
+  /\ gblame' = NoMaps /\ stats' = [c \in 1..MaxCommit |-> NoStats] /\ uv' = <<>> /\ tuv' = <<>>
   /\ tnotes' = [c \in 1..MaxCommit |-> IF Ev.init = "base" /\ c = 1 THEN BaseNote ELSE NoNote]
   /\ viol' = {} /\ drift' = {} /\ taint' = {}
   /\ hist' = hist /\ l' = l + 1
